@@ -235,6 +235,19 @@ def m_iter_consumer(c, x, *a):
         for v in xs[1:]:
             acc = ip.binop('Add', acc, v, False, c.callee)
         return acc
+    if op in ('max', 'min'):
+        it.pos = len(it.items)
+        if not xs:
+            return none(ip)
+        best = xs[0]
+        for v in xs[1:]:
+            a, b = deref(ip, v), deref(ip, best)
+            if not (isinstance(a, BV) and isinstance(b, BV)):
+                raise Inconclusive("iterator %s over non-integers" % op)
+            better = ip.branch(ip.binop('Lt' if op == 'min' else 'Ge', a, b, False, op), op)
+            if better:
+                best = v
+        return some(ip, best)
     raise Inconclusive("iterator consumer " + op)
 
 
@@ -657,6 +670,18 @@ def feed_hash(ip, hs, v, ty=''):
         raise Inconclusive("hash of enum with symbolic discriminant")
     if isinstance(v, Ptr):
         feed_hash(ip, hs, deref(ip, v))
+        return
+    if isinstance(v, MapV):
+        sort_btree(ip, v)
+        from .strings import int_bytes_be
+        hs.items.extend(reversed(int_bytes_be(BV(64, len(v.entries)), 8)))
+        for k, cell in v.entries:
+            feed_hash(ip, hs, k)
+            feed_hash(ip, hs, cell.val)
+        return
+    if isinstance(v, Opaque):
+        # opaque values contribute a fixed tag (they are never the varying part of a harness)
+        hs.items.extend(BV(8, b) for b in (v.ty or 'opaque').encode()[:8])
         return
     raise Inconclusive("hash of %r" % (v,))
 
